@@ -25,7 +25,7 @@ if st:
     print("refusing: /repo working tree is dirty:\n" + st); sys.exit(2)
 res = {}
 for p in patches:
-    name = os.path.relpath(os.path.dirname(p), os.path.dirname(os.path.dirname(p))) if "mut-out" not in p else p.split("mut-out/")[1].rsplit("/",1)[0]
+    name = os.path.relpath(os.path.dirname(p), os.path.dirname(os.path.dirname(p))) if "mut" not in p.split("/")[2] else p.split("-out/")[1].rsplit("/",1)[0]
     if only and only not in p: continue
     r = subprocess.run(["git", "-C", "/repo", "apply", p], capture_output=True, text=True)
     if r.returncode != 0:
